@@ -1251,8 +1251,8 @@ func verifC14Bucket(n int) string {
 // generators
 
 var (
-	verifC14NamePool    = []string{"web", "db", "web.v1", "webxv1", "a+b", "aab", "a|b", "a", "x(y)", "xy", "cron$", "cron"}
-	verifC14PlainPool   = []string{"web", "db", "web.v1", "webxv1", "a+b", "aab", "cron$", "cron"}
+	verifC14NamePool    = []string{"web.v1", "web", "a|b", "webxv1", "a+b", "db", "a", "x(y)", "aab", "xy", "cron$", "cron"}
+	verifC14PlainPool   = []string{"web.v1", "web", "webxv1", "a+b", "db", "aab", "cron$", "cron"}
 	verifC14HdrNames    = []string{"x-team", "X-Env", "x-ver"}
 	verifC14ExactPaths  = []string{"/", "/v1", "/v1/secret", "/admin", "/a.b", "/a+b", "/healthz", "/V1"}
 	verifC14PrefixPaths = []string{"/", "/v1", "/v1/", "/admin", "/a.", "/api/v2"}
@@ -1351,7 +1351,7 @@ func verifC14GenProgram(t *rapid.T) *verifC14Program {
 	if rapid.IntRange(0, 9).Draw(t, "exotic_names") < 4 {
 		pool = verifC14NamePool // includes names that need URL escaping in a certificate
 	}
-	n := rapid.SampledFrom([]int{0, 1, 2, 3, 3, 4, 4, 4, 5, 5, 5, 6, 6, 7, 7}).Draw(t, "n")
+	n := rapid.SampledFrom([]int{4, 3, 5, 4, 2, 6, 5, 3, 7, 1, 0}).Draw(t, "n") // rapid favours the head of the list
 	type key struct {
 		wild       bool
 		name, peer string
